@@ -71,6 +71,8 @@ func vhCheckInvL(h *vrt.H, k Keeper, ctx sdk.Context, st *vhState) {
 func vhCheckInvLAt(h *vrt.H, k Keeper, ctx sdk.Context, st *vhState, addrs []sdk.ConsAddress) {
 	vhAddr := func(i int) sdk.ConsAddress { return addrs[i] }
 	ranked := make([]int, st.N)
+	params, perr := k.Params.Get(ctx)
+	vhMust(perr)
 	it, err := k.PowerRanking.Iterate(ctx, nil)
 	vhMust(err)
 	for ; it.Valid(); it.Next() {
@@ -95,6 +97,8 @@ func vhCheckInvLAt(h *vrt.H, k Keeper, ctx sdk.Context, st *vhState, addrs []sdk
 		h.Assert(ranked[i] <= 1, "invL-one-ranking-entry-per-validator")
 		h.Assert((ranked[i] == 1) == (cand && v.Power > 0), "invL-ranking-iff-candidate-with-positive-power")
 		h.Assert(cand || v.Power == 0, "invL-non-candidate-has-no-power")
+		h.Assert(h.Implies(v.Status == types.Active, h.Both(h.Both(v.SigningInfo.Offset >= 0, v.SigningInfo.Offset < params.SignedBlocksWindow), h.Both(v.SigningInfo.Missed >= 0, v.SigningInfo.Missed < params.MaxMissedPerWindow))),
+			"invL-member-signing-window-in-range")
 		for _, tk := range st.Tokens {
 			amt, lerr := k.Locking.Get(ctx, collections.Join(tk.Denom, vhAddr(i)))
 			held := v.Locking.AmountOf(tk.Denom)
